@@ -76,9 +76,26 @@ func (e *Env) eval(ex Expr) (Value, error) {
 	case EUnary:
 		if ex.Op == "&" {
 			// address of a field: &x.f
+			if ix, ok := ex.X.(EIndex); ok {
+				// address of a slice element: &s[i]
+				sv, err := e.eval(ix.X)
+				if err != nil {
+					return nil, err
+				}
+				iv, err := e.eval(ix.I)
+				if err != nil {
+					return nil, err
+				}
+				s, ok := sv.(SliceV)
+				if !ok {
+					return nil, fmt.Errorf("& on an element of a non-slice")
+				}
+				elem := s.Typ.Underlying().(*types.Slice).Elem()
+				return e.x.elemAddr(elem, s.Arr, e.x.sliceIdx(s.Off, flatten(iv)[0])), nil
+			}
 			sel, ok := ex.X.(ESel)
 			if !ok {
-				return nil, fmt.Errorf("& needs a field selection")
+				return nil, fmt.Errorf("& needs a field selection or an element")
 			}
 			base, err := e.eval(sel.X)
 			if err != nil {
@@ -1069,7 +1086,22 @@ func (e *Env) specCall(spec *FuncSpec, args []Value, rt types.Type) (Value, erro
 		case "string":
 			rt = types.Typ[types.String]
 		default:
-			return nil, fmt.Errorf("contract %s needs a 'returns bool|int|string' line to be used with call()", spec.Key)
+			// a plain function named by its full path: take the result type from its declaration
+			for _, k := range spec.Keys {
+				k = strings.TrimSpace(k)
+				i := strings.LastIndex(k, ".")
+				if i <= 0 || strings.HasPrefix(k, "(") {
+					continue
+				}
+				if p := x.L.Prog.ImportedPackage(k[:i]); p != nil {
+					if fn := p.Func(k[i+1:]); fn != nil && fn.Signature.Results().Len() == 1 {
+						rt = fn.Signature.Results().At(0).Type()
+					}
+				}
+			}
+			if rt == nil {
+				return nil, fmt.Errorf("contract %s needs a 'returns bool|int|string' line to be used with call()", spec.Key)
+			}
 		}
 	}
 	switch spec.Kind {
